@@ -104,6 +104,10 @@ def planOf (f : Flags) (page : Int) (maxp total perB len : Nat) : Except String 
    batch number `k` is answered with `answers[k-1]` (rows `src:key`)
 -/
 def handle : List String → String
+  | ["sortflag", bits] =>
+    match parseBits? bits with
+    | some ch => if sortFlagAfter ch then "ok 1" else "ok 0"
+    | none => "bad-op"
   | ["mode", bits] =>
     match parseFlags? bits with
     | some f => showMode (chooseMode f)
